@@ -29,6 +29,8 @@ type Store struct {
 	retainedCheckpointsUpdated chan []uint64
 	state                      storeState
 	stateMu                    sync.Mutex
+	notifyMu                   sync.Mutex // serializes retention notifications
+	lastNotifiedID             uint64     // highest checkpoint id announced for retention
 	sourceSplitters            []connectors.SourceSplitter
 }
 
@@ -237,6 +239,15 @@ func (s *Store) finishSnapshotAsync(snap *jobSnapshot) (uri string, err error) {
 		// Notify subscribers of new list of checkpoints to retain (just the completed one)
 		if s.retainedCheckpointsUpdated != nil {
 			go func() {
+				// Notifications are sent from independent goroutines: deliver them
+				// in id order and drop one that a newer notification overtook,
+				// otherwise the last word on retention could name an older checkpoint.
+				s.notifyMu.Lock()
+				defer s.notifyMu.Unlock()
+				if snap.id < s.lastNotifiedID {
+					return
+				}
+				s.lastNotifiedID = snap.id
 				s.retainedCheckpointsUpdated <- []uint64{snap.id}
 			}()
 		}
